@@ -184,8 +184,12 @@ func (c *FnCtx) instr(fr *frame, st *State, in ssa.Instruction) {
 	case *ssa.MakeSlice:
 		ln := c.value(fr, t.Len)
 		cp := c.value(fr, t.Cap)
-		c.oblige(st, "bounds", "make: 0 <= len <= cap", and(le("0", ln.S), le(ln.S, cp.S), le(cp.S, "281474976710656")), t.Pos(), "")
 		el := t.Type().Underlying().(*types.Slice).Elem()
+		esz := c.eng.sizeof(el)
+		if esz < 1 {
+			esz = 1
+		}
+		c.oblige(st, "bounds", "make: 0 <= len <= cap <= maxAlloc/elemsize", and(le("0", ln.S), le(ln.S, cp.S), le(mul(cp.S, num(esz)), "281474976710656")), t.Pos(), "")
 		ref := c.alloc(st, types.NewArray(el, 0), true)
 		if kindOf(el) == kStruct {
 			var lk []leafKey
@@ -642,7 +646,14 @@ func (c *FnCtx) intBinop(st *State, op token.Token, x, y string, rt types.Type, 
 	case token.ADD:
 		return finish(add(x, y))
 	case token.SUB:
-		return finish(sub(x, y))
+		r := finish(sub(x, y))
+		if y == "1" {
+			if c.decOf == nil {
+				c.decOf = map[string]string{}
+			}
+			c.decOf[r] = x
+		}
+		return r
 	case token.MUL:
 		return finish(mul(x, y))
 	case token.QUO, token.REM:
@@ -681,6 +692,18 @@ func (c *FnCtx) intBinop(st *State, op token.Token, x, y string, rt types.Type, 
 			c.assume(st, and(sx("<=", "0", r), sx("<=", r, x), sx("<=", r, y)))
 		} else {
 			c.assume(st, ii.inRange(r))
+			c.assume(st, implies(and(sx(">=", x, "0"), sx(">=", y, "0")), and(sx("<=", "0", r), sx("<=", r, x), sx("<=", r, y))))
+		}
+		// x & (z-1): power-of-two facts
+		for _, pr := range [][2]string{{x, y}, {y, x}} {
+			if z, ok := c.decOf[pr[1]]; ok {
+				if pr[0] == z {
+					// z & (z-1) == 0  <=>  z is a power of two (z > 0)
+					c.assume(st, implies(sx(">", z, "0"), eq(eq(r, "0"), sx("ispow2", z))))
+				} else {
+					c.assume(st, implies(and(sx("ispow2", z), sx(">=", pr[0], "0")), eq(r, sx("mod", pr[0], z))))
+				}
+			}
 		}
 		return r
 	case token.OR, token.XOR:
